@@ -619,12 +619,12 @@ func (aof *AppendableFile) SwitchToReadOnlyMode() error {
 		return err
 	}
 
-	if aof.retryableSync {
-		// syncing is required to free the write buffer with retryable sync
-		err := aof.sync()
-		if err != nil {
-			return err
-		}
+	// the file is not going to be written any more: its content must be durable
+	// before leaving it, nothing syncs it afterwards (multiapp only syncs the active
+	// chunk). With retryable sync this is also required to free the write buffer
+	err = aof.sync()
+	if err != nil {
+		return err
 	}
 
 	aof.writeBuffer = nil
